@@ -31,6 +31,101 @@ def run(chk):
     tmpls = probes + tmpls
     run_templates(chk, tmpls, toks, PREFIXES, kinds=["bare-mem", "bare-disk", "tree"])
     run_http_templates(chk, toks, 5 if chk.tier == "quick" else 60, 22 if chk.tier == "quick" else 30, "sync", PREFIXES, check_tags=True)
+    big_collection(chk)
+
+
+def big_collection(chk, n=650):
+    """A collection with several hundred members, brought there (and later emptied by half) in single
+    commits — the way a bulk import or `git pull` does it: the sync reports from the empty token, from the
+    token of the empty state and from the token of the full state must list every change, none twice."""
+    import os
+    import shutil
+    import stat
+    import urllib.parse
+    import compat  # noqa: F401
+    from dulwich.objects import Blob
+    from common import scratch_dir
+    from httpdrv import make_server, parse_multistatus
+    from xandikos.store.git import BareGitStore
+    for fe in (("wsgi",) if chk.tier == "quick" else ("wsgi", "aiohttp")):
+        root = scratch_dir()
+        srv = None
+        try:
+            srv = make_server(fe, root + "/data", prefix="/")
+            srv.close()
+            st = BareGitStore.create(os.path.join(root, "data", "user", "calendars", "big"))
+            st.set_type("calendar")
+            srv = make_server(fe, root + "/data", prefix="/")
+            base = "/user/calendars/big/"
+
+            def sync(token):
+                tokxml = "<D:sync-token/>" if token is None else "<D:sync-token>%s</D:sync-token>" % token
+                body = ('<?xml version="1.0"?><D:sync-collection xmlns:D="DAV:">%s<D:sync-level>1</D:sync-level>'
+                        '<D:prop><D:getetag/></D:prop></D:sync-collection>' % tokxml).encode()
+                r = srv.request("REPORT", base, {"Depth": "1", "Content-Type": "text/xml"}, body)
+                ms = parse_multistatus(r.body) if r.status == 207 else None
+                if not ms:
+                    return None, None, "status %d" % r.status
+                plus, minus = {}, []
+                for it in ms[0]:
+                    name = urllib.parse.unquote(urllib.parse.urlsplit(it["href"] or "").path)[len(base):]
+                    if it["status"] == "404":
+                        minus.append(name)
+                    else:
+                        e = it["props"].get("{DAV:}getetag")
+                        plus.setdefault(name, []).append(e[1].text if e else None)
+                return plus, minus, ms[1]
+
+            def bulk(change):
+                s2 = BareGitStore.open_from_path(os.path.join(root, "data", "user", "calendars", "big"))
+                tree = s2._get_current_tree()
+                objs = []
+                cur = {}
+                for name, data in change.items():
+                    if data is None:
+                        del tree[name.encode()]
+                    else:
+                        b = Blob.from_string(data)
+                        tree[name.encode()] = (0o644 | stat.S_IFREG, b.id)
+                        objs.append((b, name.encode()))
+                        cur[name] = '"%s"' % b.id.decode()
+                s2.repo.object_store.add_objects([(tree, "")] + objs)
+                s2._commit_tree(tree.id, b"bulk change")
+                return cur
+
+            _, _, t_empty = sync(None)
+            members = bulk({"e%04d.ics" % i: vevent("big-%d" % i, summary="event %d" % i) for i in range(n)})
+            rep = {"level": "http", "frontend": fe, "collection": "bare repository with %d members written in one commit" % n}
+
+            def judge(label, got, want_plus, want_minus):
+                plus, minus, tok = got
+                chk.case(("big-collection", fe, label), nontrivial=True)
+                if plus is None:
+                    chk.violation("C07:large-collection:report-refused", f"{label}: {tok}", dict(rep, step=label))
+                    return None
+                dup = [k for k, v in plus.items() if len(v) > 1] + [m for m in set(minus) if minus.count(m) > 1]
+                gotp = {k: v[0] for k, v in plus.items()}
+                if gotp != want_plus or sorted(minus) != sorted(want_minus) or dup:
+                    missing = sorted(set(want_plus) - set(gotp))[:3] + sorted(set(want_minus) - set(minus))[:3]
+                    chk.violation("C07:large-collection:report-is-not-the-change-set",
+                                  f"{label}: {len(gotp)} changed + {len(minus)} removed reported, "
+                                  f"{len(want_plus)} + {len(want_minus)} expected; missing e.g. {missing}; listed twice: {dup[:3]}",
+                                  dict(rep, step=label, reported=len(gotp) + len(minus), expected=len(want_plus) + len(want_minus)))
+                return tok
+            judge("empty token, full collection", sync(None), members, [])
+            t_full = judge("token of the empty state", sync(t_empty), members, [])
+            gone = {k: None for k in sorted(members)[: n // 2 + 7]}
+            changed = bulk(dict(gone, **{"e%04d.ics" % (n - 1): vevent("big-%d" % (n - 1), summary="changed")}))
+            if t_full:
+                judge("token of the full state, after removing half", sync(t_full), changed, list(gone))
+            left = {k: v for k, v in members.items() if k not in gone}
+            left.update(changed)
+            judge("empty token, after removing half", sync(None), left, [])
+            chk.count("large-collection-members", n)
+        finally:
+            if srv is not None:
+                srv.close()
+            shutil.rmtree(root, ignore_errors=True)
 
 
 def replay(chk, path):
